@@ -55,6 +55,17 @@ theorem gen_pairing_sites :
     compFlags = [true, false, true, false] ∧ timedFlags = [true, false] ∧
     skel_deal_n_comp = Skel.deal_n_comp ∧ skel_timed_pop_n = Skel.timed_pop_n ∧ timedWaitsOnIndexPlusNum = 1 := by decide
 
+/-- source text of the waiter / waker functions (parameter types — `wakeup_waiters(uint16_t)` truncates `expected_version + 1` —,
+the timeout refresh of block_until_reach_expected_version_slow, the early returns of wakeup_waiters) -/
+theorem gen_src_wake :
+    src_decl_slotfutex = Skel.Pinned.decl_slotfutex ∧
+    src_wakeup_waiters = Skel.Pinned.wakeup_waiters ∧
+    src_set_version_and_wakeup = Skel.Pinned.set_version_and_wakeup ∧
+    src_block_slow = Skel.Pinned.block_slow ∧
+    src_spin_slow = Skel.Pinned.spin_slow ∧
+    src_wait = Skel.Pinned.wait :=
+  ⟨rfl, rfl, rfl, rfl, rfl, rfl⟩
+
 /-! ### no lost wake-up at the futex level -/
 /-- **bq_sleep_sound.**  (S0) a thread hands to futex_wait only a word value with the waiter bit set;
 (S1) while a thread sleeps on a slot, that slot's waiter bit is still set — so the next releaser that
